@@ -18,7 +18,8 @@ func init() {
 		NeedSSA:  true,
 		Explanation: "Translation correctness over programs × inputs is NOT decided (it would need translation validation). Decided are two structural clauses that are necessary for the register-lifted form to equal the naive form: (R1.1, shared with C02) lifting rewrites uses through Instruction.Operands, so every operand-holding field of every instruction type must be yielded by Operands — a field it misses keeps pointing at a deleted Load/Alloc; " +
 			"(R1.2) lifting's classification of the uses of a cell is conservative: the only kinds of user that do not make the cell (partially) unliftable are Load, DebugRef and a Store *into* the cell (Store.Val != alloc), every other kind — including kinds added later — falls into the default that marks it unliftable; (R1.3) renaming deletes only the cell itself (index >= 0), Stores whose address is such a cell and Loads/DebugRefs whose operand is one." +
-			" Also decided: the 'location is already zero' flag that lets assign/compLit skip the clearing store of an empty or sparse composite literal is false, forwarded, or set next to the allocation of its target (a short variable declaration can re-declare existing variables).",
+			" Also decided: the 'location is already zero' flag that lets assign/compLit skip the clearing store of an empty or sparse composite literal is false, forwarded, or set next to the allocation of its target (a short variable declaration can re-declare existing variables)." +
+			" The block optimisations give up, before any edit, once hasPhi() answered true for the block concerned (threading into or fusing a φ-block changes which value the φ selects).",
 		RuleText:    "type-switch case analysis with path-sensitive evaluation of the flag phi; guard-edge rules for every deletion in rename",
 		Assumptions: []string{"Alloc.index >= 0 marks exactly the cells chosen for lifting in this round"},
 		Run:         runC01,
